@@ -11,6 +11,7 @@ import VsgProofs.Lemmas.PostPhase1
 import VsgProofs.Lemmas.BaseCaseTok
 import VsgProofs.Lemmas.BaseStructDispatch
 import VsgProofs.Lemmas.BFull2Indent   -- wp2_bfull2
+import VsgProofs.Lemmas.BFull2IndentVar   -- wp2b_indent
 namespace Vsgm.C07
 open Vsgm
 
@@ -316,6 +317,23 @@ example :
 end wp2_bfull2
 
 /-! ### END wp2_bfull2 -/
+
+
+/-! ### BEGIN wp2b_indent (all four extractors of token_indent) -/
+
+section wp2b_indent
+open BFull2
+
+/-- **whole-rule line count, all 102 indent rules** (plain, between, between-unless, unless extractors): no hypothesis
+    about the selection — the variant is the plain rule with a masked oracle -/
+theorem bfull2_indent_lineCount_variants (uid : Tok → Option TM.Key) (P : Params) (ind : Oracle) (f : List Tok)
+    (hcs : CsOk P.cs) (hs : StyleOk P) (hb : ∀ t ∈ f, t.isBof = false) (hk : ∀ t ∈ f, isWsU uid t = true → t.kind = .ws) :
+    crSeq (fixAll uid P ind f) = crSeq f :=
+  fixAll_hom_variant uid P ind crSeq crSeq_append (by intro t ht; simp [crSeq, Tok.isCr, ht]) hcs hs f hb hk
+
+end wp2b_indent
+
+/-! ### END wp2b_indent -/
 
 
 end Vsgm.C07
